@@ -379,6 +379,7 @@ func (m *Manager) GetRangeIterator(startKey, endKey []byte) (iterator.Iterator, 
 func (m *Manager) ApplyBatch(entries []*wal.Entry) error {
 	m.mu.Lock()
 	defer m.mu.Unlock()
+	verifhook.At1("sm.batch.locked", uint64(len(entries)))
 
 	if m.closed.Load() {
 		return ErrStorageClosed
